@@ -24,8 +24,8 @@ def gerrClass : GErr → String
   | .badRef false true => "AttributeError"
   | .badRef _ _ => "AssertionError"
 
-/-- the class of the exception `_get_value` raises. `arith` and `unsupported` are where the model abstains (SymPy
-    returns `zoo` / evaluates a function the model has no arithmetic for): a class name of their own -/
+/-- the class of the exception `_get_value` raises. `arith` and `unsupported` are where SymPy yields no finite float
+    (`zoo` after a division by zero / the interpretation of an opaque term has no value): a class name of their own -/
 def verrClass : VErr → String
   | .noDefinition => "ValueError"
   | .noInit => "TypeError"
@@ -164,31 +164,50 @@ def eqLhsNode : Option Eqn → Option Node
 /-- `expr.atoms(Variable)`, in the model's traversal order (python: a set) -/
 def varAtoms (e : Expr) : List Nat := e.vars
 
-/-- `expr.atoms(sympy.Derivative)`, in the model's traversal order (python: a set). Only for arithmetic trees: the
-    model holds no structure for an opaque (`opq`) subterm. -/
+/-- `expr.atoms(sympy.Derivative)`, in the model's traversal order (python: a set); the derivatives in the argument
+    places of an opaque term included -/
 def derivAtoms (e : Expr) : List Node := e.nodes.filter isDerivative
 
-/-- `expr.xreplace(replacements)` where the keys of `replacements` are derivatives -/
-def xreplaceDerivs (e : Expr) (r : List (Node × Expr)) : Expr :=
-  match e with
-  | .deriv s t => (r.lookup (.deriv s t)).getD (.deriv s t)
-  | .bin op a b => .bin op (xreplaceDerivs a r) (xreplaceDerivs b r)
-  | .pow a n => .pow (xreplaceDerivs a r) n
-  | e => e
+mutual
+  /-- `expr.xreplace(replacements)` where the keys of `replacements` are derivatives (it reaches inside an opaque term:
+      its argument places are rewritten) -/
+  def xreplaceDerivs (e : Expr) (r : List (Node × Expr)) : Expr :=
+    match e with
+    | .deriv s t => (r.lookup (.deriv s t)).getD (.deriv s t)
+    | .bin op a b => .bin op (xreplaceDerivs a r) (xreplaceDerivs b r)
+    | .pow a n => .pow (xreplaceDerivs a r) n
+    | .opq id args => .opq id (xreplaceDerivsL args r)
+    | .num q => .num q
+    | .var v => .var v
+  def xreplaceDerivsL (es : List Expr) (r : List (Node × Expr)) : List Expr :=
+    match es with
+    | [] => []
+    | a :: as => xreplaceDerivs a r :: xreplaceDerivsL as r
+end
 
-/-- substitution of the numbers of a dict for the variables of an arithmetic tree; `none`: a variable that occurs is
-    mapped to `None` -/
-def substVals (l : List (Nat × PyVal)) : Expr → Option Expr
-  | .var v => match l.lookup v with
-    | some (some q) => some (.num q)
-    | some none => none
-    | none => some (.var v)
-  | .bin op a b =>
-    match substVals l a, substVals l b with
-    | some a', some b' => some (.bin op a' b')
-    | _, _ => none
-  | .pow a n => (substVals l a).map (fun a' => .pow a' n)
-  | e => some e
+mutual
+  /-- substitution of the numbers of a dict for the variables of a tree; `none`: a variable that occurs is mapped to
+      `None` -/
+  def substVals (l : List (Nat × PyVal)) : Expr → Option Expr
+    | .var v => match l.lookup v with
+      | some (some q) => some (.num q)
+      | some none => none
+      | none => some (.var v)
+    | .bin op a b =>
+      match substVals l a, substVals l b with
+      | some a', some b' => some (.bin op a' b')
+      | _, _ => none
+    | .pow a n => (substVals l a).map (fun a' => .pow a' n)
+    | .opq id args => (substValsL l args).map (fun args' => .opq id args')
+    | .num q => some (.num q)
+    | .deriv s t => some (.deriv s t)
+  def substValsL (l : List (Nat × PyVal)) : List Expr → Option (List Expr)
+    | [] => some []
+    | a :: as =>
+      match substVals l a, substValsL l as with
+      | some a', some as' => some (a' :: as')
+      | _, _ => none
+end
 
 /-- `expr.xreplace(evaluated)`. A variable mapped to `None` makes SymPy raise SympifyError when it rebuilds the parent
     node (a bare variable is replaced by `None` itself and the following `float(None)` raises TypeError). -/
@@ -202,8 +221,10 @@ def xreplaceMemo (e : Expr) (d : PyMemo) : Except PyErr Expr :=
       | .var _ => .error ⟨"TypeError"⟩
       | _ => .error ⟨"SympifyError"⟩
 
-/-- `float(expr)`: the value of an arithmetic tree without variables (a variable or derivative that is left:
-    `noDefinition`; `/0`: `arith`; an opaque subterm: `unsupported`, see `verrClass`) -/
-def floatExpr (e : Expr) : Except PyErr Rat := errClass verrClass (evalE [] e)
+/-- `float(expr)`: the value of a tree without variables under the interpretation `fn` of the opaque terms (a
+    variable or derivative that is left: `noDefinition`; `/0`: `arith`; an opaque term to which `fn` gives no value:
+    `unsupported`, see `verrClass`). SymPy's `float` is the one leaf of `_get_value` that depends on what the opaque
+    terms ARE: `fn` is a parameter of the generated `_get_value` (harness/code_specs/rolesvalue.py passes it on). -/
+def floatExpr (fn : Interp) (e : Expr) : Except PyErr Rat := errClass verrClass (evalE fn [] e)
 
 end Cellml.Tie.PRoles
